@@ -13,7 +13,7 @@ from ..tests import REG, any_case, times_of
 from ..util import flags
 
 ID = "C02"
-RULE = ("the 10 tests that document missing-data handling. Exhaustive: for n=0..8 (quick: 0..5) every one of the 2^n placements "
+RULE = ("the 10 tests that document missing-data handling. Exhaustive: for n=0..9 (quick: 0..5) every one of the 2^n placements "
         "of missing values in the observation series, and for tests with auxiliary inputs (depth for climatology and "
         "density_inversion; lon x lat for location and speed) every 2^n x 2^n joint placement for n<=5 (quick: <=4), each "
         "crossed with several dyadic value sequences and parameter families (every climatology member shape: +-zspan, "
@@ -238,7 +238,7 @@ AUX_TESTS = {"climatology": ("x", "z"), "density": ("rho", "z"), "location": ("l
 
 
 def enum_chunks(tier):
-    top = 5 if tier == "quick" else 8
+    top = 5 if tier == "quick" else 9
     top_aux = 4 if tier == "quick" else 5
     out = []
     for name in TESTS:
@@ -279,7 +279,7 @@ SUBS = [
     Sub("missing_masked_junk", junk_case, check_missing, quick=1200, thorough=20000),
 ]
 ENUMS = [Enum("placements", enum_chunks, enum_cases, check_missing,
-              describe="all 2^n placements of missing values for n<=8 (quick: <=5) x value sequences x parameter families for "
+              describe="all 2^n placements of missing values for n<=9 (quick: <=5) x value sequences x parameter families for "
                        "gross_range, valid_range, spike, rate_of_change, flat_line, attenuated; all 2^n x 2^n joint placements "
                        "in (value, depth) / (lon, lat) for n<=5 (quick: <=4) for climatology, density_inversion, location, speed",
               tiers=("quick", "thorough"))]
